@@ -133,13 +133,22 @@ def run_case(case, acc):
 # =====================================================================================================
 # monitors
 # =====================================================================================================
+class WorkBudgetExceeded(Exception):
+    """Raised by RelMon when one twin asked Relevance more than `budget` times (a LOGICAL work bound, deterministic):
+    nested iterative linear solvers that all run to maxiter for a dead seed multiply their iteration counts."""
+
+
+WORK_BUDGET = 400000
+
+
 class RelMon:
     """Counts the 'irrelevant' answers of Relevance (class-level wraps, restored on exit)."""
 
-    def __init__(self):
+    def __init__(self, budget=WORK_BUDGET):
         self.sys_pruned = 0
         self.var_pruned = 0
         self.sys_asked = 0
+        self.budget = budget
 
     def __enter__(self):
         from openmdao.utils.relevance import Relevance
@@ -153,6 +162,8 @@ class RelMon:
             mon.sys_asked += 1
             if not r:
                 mon.sys_pruned += 1
+            if mon.sys_asked > mon.budget:
+                raise WorkBudgetExceeded('%d relevance queries' % mon.sys_asked)
             return r
 
         def is_relevant(slf, name):
@@ -502,9 +513,12 @@ def _run_totals_twin(spec, mode, plan, norel):
                         prob.model.add_constraint(nm, upper=1e3, linear=r['linear'], **kw)
                     names[id(r)] = r['alias'] or nm
             prob.setup(mode=mode)
-            # block solvers: contraction <= 0.4 per sweep (G) -> 60 sweeps are ample (G's default is 200)
+            # block solvers: contraction <= 0.4 per sweep (G) -> 0.4**40 = 1e-16: 40 sweeps are ample (G's default
+            # is 200); gmres on <= 40 unknowns needs <= 40 iterations (G's default is 500)
             for g in prob.model.system_iter(include_self=True, recurse=True, typ=om.Group):
                 if type(g.linear_solver) in (om.LinearBlockGS, om.LinearBlockJac):
+                    g.linear_solver.options['maxiter'] = 40
+                elif type(g.linear_solver) is om.ScipyKrylov:
                     g.linear_solver.options['maxiter'] = 60
             prob.run_model()
             out['failures'] = list(fmon.failures)
@@ -663,6 +677,9 @@ def _judge_totals_cell(acc, sp, fm, u, p, S, cond, dep, kind, mode, gbk, plan, c
         acc.skip('HARNESS-disabled-twin-still-prunes')
         return
     acc.count('obs:twin-off-verified')
+    if isinstance(on['exc'], WorkBudgetExceeded):
+        acc.skip('work-budget-exceeded (nested iterative solvers looping to maxiter)')
+        return
     if off['exc'] is not None and on['exc'] is not None:
         # not a relevance matter: both twins reject / fail the same way
         same = type(off['exc']) is type(on['exc'])
@@ -885,6 +902,9 @@ def _case_opt(case, acc):
         acc.skip('HARNESS-disabled-twin-still-prunes')
         return
     acc.count('obs:twin-off-verified')
+    if isinstance(on['exc'], WorkBudgetExceeded):
+        acc.skip('work-budget-exceeded (nested iterative solvers looping to maxiter)')
+        return
     if off['exc'] is not None and on['exc'] is not None:
         acc.skip('both-twins-raise')
         if os.environ.get('OMV_DEBUG'):
@@ -1039,6 +1059,9 @@ def _case_coupled(case, acc):
         acc.skip('HARNESS-disabled-twin-still-prunes')
         return
     acc.count('obs:twin-off-verified')
+    if isinstance(on['exc'], WorkBudgetExceeded):
+        acc.skip('work-budget-exceeded (nested iterative solvers looping to maxiter)')
+        return
     if off['exc'] is not None and on['exc'] is not None:
         acc.skip('both-twins-raise')
         return
